@@ -9,6 +9,11 @@ use serde_json::{json, Value};
 use std::collections::BTreeSet;
 use std::path::{Path, PathBuf};
 
+thread_local! {
+    /// whether the handles of the scenarios are built with auto-sync (the default) or with auto_sync(false)
+    pub static AUTO_SYNC: std::cell::Cell<bool> = const { std::cell::Cell::new(true) };
+}
+
 pub const SEC: i128 = 1_000_000_000;
 pub const NSHARDS: usize = 2;
 
@@ -189,7 +194,7 @@ pub fn setup(scn: &Scn) -> World {
         writer: Some((front, capacity)),
         readers: if two { vec![Front::Plain, Front::Plain] } else if stack { vec![Front::Plain] } else { vec![] },
         checker: Checker::None,
-        auto_sync: true,
+        auto_sync: AUTO_SYNC.with(|a| a.get()),
     };
     let op = match scn.op.as_str() {
         "set" => Op::Set(key, v_new()),
